@@ -90,7 +90,7 @@ def _engine() -> C12Engine:
         "fault is run twice: as generated and with every such fault replaced by a normal return; healthy invocations must have the "
         "identical observable history (id, start position, outcome, cancellations, callback counts). Non-trivial: the twin comparison ran "
         "with >= 2 healthy invocations. Distinct = program hash.",
-        [("default", prof, 1.0)],
+        [("default", prof, 0.9), ("two-pools", dict(prof, max_pools=2), 0.1)],
         lambda case, l: "twin:compared" in l and "twin:>=2-healthy" in l,
         n_quick=3000, n_thorough=150000, floors={"twin:compared": 0.4, "fault:callback": 0.15, "fault:worker": 0.2})
 
